@@ -13,6 +13,7 @@ import Bita.Proofs.SpecChunks
 import Bita.Proofs.TryInit
 import Bita.Proofs.CloneRun
 import Bita.Proofs.CloneHeader
+import Bita.Proofs.CloneLength
 import Bita.Proofs.ClonePhases
 
 namespace Bita.Proofs
@@ -86,10 +87,11 @@ theorem clone_sound (H : Bytes → Bytes) (hH : ∀ x, (H x).length = 64)
   exact hfeed ks hcov
 
 /-- **Completeness.**  With an honest reader over archive bytes that store the chunks, no pin
-mismatch and (for a block device) enough room and no `--verify-output` (the real code hashes
-the *whole* device, so verification of a device longer than the source always fails - found
-while proving this), the clone succeeds (and by soundness yields the
-source) - or a collision is exhibited. -/
+mismatch and (for a block device) enough room, the clone succeeds (and by soundness yields the
+source) - or a collision is exhibited.  `--verify-output` is allowed on a block device longer than
+the source as well: since the F17 repair (`Gen.verifyHashesSourceSizeOnly`) verification hashes the
+first `source_total_size` bytes only (before it, it hashed the whole device and always failed there -
+found while proving this). -/
 theorem clone_complete (H : Bytes → Bytes) (hH : ∀ x, (H x).length = 64)
     (decomp : Nat → Bytes → Nat → Option Bytes) (features : List Nat)
     (archive : Bytes) (opts : CloneOpts) (prior : Bytes) (seeds : List Bytes)
@@ -97,8 +99,7 @@ theorem clone_complete (H : Bytes → Bytes) (hH : ∀ x, (H x).length = 64)
     (hinit : tryInit H features (honestReadAt archive) = .ok a) (hd : Describes H a src cks)
     (hs : Stored H decomp a archive)
     (hpin : ∀ pin, opts.headerPin = some pin → pin = a.headerChecksum)
-    (hdev : opts.blockDev = true → src.length ≤ prior.length)
-    (hbv : opts.blockDev = true → opts.verifyOutput = false) :
+    (hdev : opts.blockDev = true → src.length ≤ prior.length) :
     let r := Clone.run H decomp features (honestReadAt archive) (honestReadChunks archive) opts prior seeds
     (r.result = .ok ∧ setLen r.output src.length = src ∧ (opts.blockDev = false → r.output = src)) ∨
       Collision H a.hashLength cks ∨
@@ -137,12 +138,10 @@ theorem clone_complete (H : Bytes → Bytes) (hH : ∀ x, (H x).length = 64)
   obtain ⟨hr, ho⟩ := run_ok_intro H decomp features (honestReadAt archive) (honestReadChunks archive)
     opts prior seeds a hinit _ st1 _ hix (banner_no_panic a hd.valid) hpin' hdev' hst1 h3
     (by
-      intro hvo
-      have hb : opts.blockDev = false := by
-        cases hbd : opts.blockDev with
-        | false => rfl
-        | true => rw [hbv hbd] at hvo; cases hvo
-      rw [ho2 hb, hd.checksum]
+      intro _
+      rw [cloneHashed_correct opts a _ src hd.total ho1 (fun hb => Nat.le_trans (hdev hb)
+        (cloneStages_length_le H decomp (honestReadChunks archive) a opts prior seeds _ st1 hst1)),
+        hd.checksum]
       exact hashTruncate_of_le _ _ (Nat.le_refl _))
   rw [ho]
   exact ⟨hr, ho1, ho2⟩
@@ -208,20 +207,46 @@ theorem clone_pin (H : Bytes → Bytes) (decomp : Nat → Bytes → Nat → Opti
   · simp
   · simp [hne]
 
-/-- `--verify-output`: success implies the output hashes to the recorded source checksum. -/
+/-- `--verify-output`: success implies that the first `source_total_size` bytes of the output - what
+the repaired code hashes (`Gen.verifyHashesSourceSizeOnly`); all of a regular file, the part of a
+block device that the clone is about - hash to the recorded source checksum. -/
 theorem clone_verify_output (H : Bytes → Bytes) (decomp : Nat → Bytes → Nat → Option Bytes)
     (features : List Nat)
     (readAt : Nat → Nat → Option Bytes) (readChunks : List (Nat × Nat) → List (Option Bytes))
     (opts : CloneOpts) (prior : Bytes) (seeds : List Bytes) (a : Archive)
     (hinit : tryInit H features readAt = .ok a) (hv : opts.verifyOutput = true) :
     let r := Clone.run H decomp features readAt readChunks opts prior seeds
-    r.result = .ok → hashTruncate (H r.output) a.sourceChecksum.length = a.sourceChecksum := by
+    r.result = .ok →
+      hashTruncate (H (r.output.take a.sourceTotalSize)) a.sourceChecksum.length = a.sourceChecksum := by
   dsimp only
   intro hr
   obtain ⟨ix, st1, st3, _, _, _, ho, _, hvo⟩ :=
     run_ok_inv H decomp features readAt readChunks opts prior seeds a hinit hr
-  rw [ho]
+  rw [ho, ← cloneHashed_eq]
   exact hvo hv
+
+/-- ... and for a regular file that is the whole output. -/
+theorem clone_verify_output_file (H : Bytes → Bytes) (decomp : Nat → Bytes → Nat → Option Bytes)
+    (features : List Nat)
+    (readAt : Nat → Nat → Option Bytes) (readChunks : List (Nat × Nat) → List (Option Bytes))
+    (opts : CloneOpts) (prior : Bytes) (seeds : List Bytes) (a : Archive)
+    (hinit : tryInit H features readAt = .ok a) (hv : opts.verifyOutput = true)
+    (hb : opts.blockDev = false) :
+    let r := Clone.run H decomp features readAt readChunks opts prior seeds
+    r.result = .ok → hashTruncate (H r.output) a.sourceChecksum.length = a.sourceChecksum := by
+  dsimp only
+  intro hr
+  have h := clone_verify_output H decomp features readAt readChunks opts prior seeds a hinit hv hr
+  obtain ⟨ix, st1, st3, _, _, _, ho, _, _⟩ :=
+    run_ok_inv H decomp features readAt readChunks opts prior seeds a hinit hr
+  have hl : (Clone.run H decomp features readAt readChunks opts prior seeds).output.length ≤
+      a.sourceTotalSize := by
+    rw [ho]
+    unfold cloneOutput
+    rw [hb]
+    simp [setLen]
+    omega
+  rwa [List.take_of_length_le hl] at h
 
 /-- A refused clone (archive does not open) leaves the output untouched and issues no write. -/
 theorem clone_refused_untouched (H : Bytes → Bytes) (decomp : Nat → Bytes → Nat → Option Bytes)
